@@ -189,13 +189,15 @@ static carquet_status_t encode_levels(
         (uint8_t)((rle_size >> 16) & 0xFF),
         (uint8_t)((rle_size >> 24) & 0xFF)
     };
-    carquet_buffer_append(output, len_bytes, 4);
+    status = carquet_buffer_append(output, len_bytes, 4);
 
     /* Append the RLE-encoded data */
-    carquet_buffer_append(output, rle_buffer.data, rle_buffer.size);
+    if (status == CARQUET_OK) {
+        status = carquet_buffer_append(output, rle_buffer.data, rle_buffer.size);
+    }
     carquet_buffer_destroy(&rle_buffer);
 
-    return CARQUET_OK;
+    return status;
 }
 
 /* Append raw levels of one batch; levels == NULL means `fill` for every row. */
@@ -538,9 +540,13 @@ carquet_status_t carquet_page_writer_finalize(
             return bstatus;
         }
     } else if (writer->type != CARQUET_PHYSICAL_BOOLEAN) {
-        carquet_buffer_append(&uncompressed,
+        carquet_status_t vstatus = carquet_buffer_append(&uncompressed,
                                writer->values_buffer.data,
                                writer->values_buffer.size);
+        if (vstatus != CARQUET_OK) {
+            carquet_buffer_destroy(&uncompressed);
+            return vstatus;
+        }
     }
 
     *uncompressed_size = (int32_t)uncompressed.size;
@@ -637,9 +643,18 @@ carquet_status_t carquet_page_writer_finalize(
     thrift_write_struct_end(&enc);  /* End DataPageHeader */
     thrift_write_struct_end(&enc);  /* End PageHeader */
 
+    /* A header that could not be written completely is not a page */
+    if (thrift_encoder_has_error(&enc)) {
+        carquet_buffer_destroy(&compressed);
+        return enc.status;
+    }
+
     /* Append compressed data after header */
-    carquet_buffer_append(&writer->page_buffer, compressed.data, compressed.size);
+    status = carquet_buffer_append(&writer->page_buffer, compressed.data, compressed.size);
     carquet_buffer_destroy(&compressed);
+    if (status != CARQUET_OK) {
+        return status;
+    }
 
     *page_data = writer->page_buffer.data;
     *page_size = writer->page_buffer.size;
